@@ -333,6 +333,56 @@ CLAIMED = {
     ),
 }
 
+# additions of the fourth seeding round (appended to the texts above)
+EXTRA = {
+    "C01": " Scenarios added later: a target that reports per-lane (high/low priority) watermarks in its acknowledgements, two and three "
+           "proxy instances, a source whose watermark advances without tasks.",
+    "C02": " Scenarios added later: back-pressure (the only target is slow, its hand-off channel holds one message, the source's receive "
+           "loop waits in the hand-off while up to 2 s of virtual time pass) and a late peer (the instance that owns the target shard is "
+           "known from the membership state but its intra-proxy stream comes up only on an explicit action, up to 3 s later): nothing "
+           "may be reported as handed over that was not.",
+    "C03": " At the macro level the locks of proxy_streams.go, shard_manager.go and intra_proxy_router.go park (rewriter rule locks), so a "
+           "goroutine waiting for a lock nobody releases is an observable state (the final ack never arrives; the waiting sites are "
+           "printed) instead of a hang; executions whose bubble ends with goroutines still blocked after everything was cancelled keep "
+           "their verdicts. Scenario added: two source shards hold a pending watermark when the only target registers late and its "
+           "hand-off channel holds one message.",
+    "C04": " The two known findings are identified by history, not only by symptom: the signature says whether the acknowledgement that "
+           "passed the unconfirmed task came from the owner shard's next stream (the recorded defect) or whether the owner has not "
+           "acknowledged anything since (never observed on the unchanged tree; any occurrence is a violation).",
+    "C06": " Wiring part: the relay through a real ClusterConnection (loopback TCP, both proxy servers): responses and sync-states "
+           "arrive unchanged and in order, a batch of 6 MiB (above gRPC's 4 MiB default) passes, and when the proxy shuts down with "
+           "a stream open both ends of the relay are ended.",
+    "C10": " Third family: the manager built by the public NewGRPCMuxManager from a cluster definition (the pool size is what muxCount "
+           "says; per-session gRPC server and yamux observer attached).",
+    "C11": " The client connection is built as createClient builds it (name client-conn-<connection name> with digits in the name, "
+           "production dial options: round_robin, connect parameters). Fault alphabet extended by stall(id): the peer stops accepting "
+           "streams while the session stays up and its transport ends, so gRPC's redial stays pending in Open() until the session ends. "
+           "The locks of the session table and of the client connection park (rule locks) and every step runs under a 3-hour "
+           "virtual-time watchdog: a session-list update that cannot complete while a dial is pending is reported with the waiting lock "
+           "sites.",
+    "C12": " History batches are also presented JSON-encoded (Temporal's serializer reads proto3 and JSON alike) and next to a second "
+           "batch with nothing to map (before / after, repeated blob fields). Wiring part: every unary method of both services, fully "
+           "populated, through both servers of a real ClusterConnection with a namespace mapping (alone and together with a "
+           "search-attribute mapping): the backend sees the request and the caller the response that the reference translation produces.",
+    "C13": " Frame cases added: a batch with nothing to map before / after the batch that holds the mapped name in a repeated blob field, "
+           "and JSON-encoded batches.",
+    "C15": " Every allow-list family is also run with an allowedNamespaces list in the policy (requests then name the allowed namespace "
+           "wherever they have the field): the second list must not change any method verdict.",
+    "C16": " Forbidden names inside serialized history batches are also presented in JSON-encoded batches.",
+    "C17": " Blob path: invalid UTF-8 the repair cannot fix (another string field alone, before and after a repairable failure message; "
+           "a chain of 40 invalid failure messages) must be reported with the message unchanged.",
+    "C18": " At depth 1 additionally with a sibling element of every other kind before the repaired one (every message arm of the "
+           "element's oneof: another replication-task type, another event or command type; thorough: also after it, in every list on "
+           "the way).",
+    "C19": " The host's system trust store is made observable (SSL_CERT_FILE points at a throw-away CA), so any fall-back to it admits a "
+           "known peer. Added configuration shapes: a CA bundle that holds only a self-signed non-CA certificate asserting keyCertSign "
+           "(must be refused in both roles), and a listener with its own certificate, verification not disabled and no CA path (refused, "
+           "or admits nobody).",
+}
+for _k, _v in EXTRA.items():
+    CLAIMED[_k]["text"] += _v
+
+
 PENDING_REASON = "check not built yet in this revision of /verif (see DESIGN.md section 8 for the build order)"
 
 ALL = ["C%02d" % i for i in range(1, 21)]
